@@ -13,3 +13,11 @@ func TestC10(t *testing.T) {
 		count("runs", 1)
 	})
 }
+
+// TestC10Exec — C10 for the contexts plush creates and is lent while it renders (harness/c10exec.go).
+func TestC10Exec(t *testing.T) {
+	runBatches(t, "c10exec", func(t *rapid.T) {
+		c10ExecRun(t)
+		count("runs", 1)
+	})
+}
